@@ -2,7 +2,7 @@
 """Copy confirmed seeded changes from /tmp/seeded into /verif/seeded/<id>/ (patch.diff, demo, meta.json)."""
 import json, shutil, sys
 from pathlib import Path
-SRC = Path("/tmp/seeded"); DST = Path("/verif/seeded")
+SRC = Path(sys.argv[1] if len(sys.argv) > 1 else "/tmp/seeded"); DST = Path("/verif/seeded")
 for d in sorted(SRC.iterdir()):
     if not d.is_dir() or not (d / "confirm.json").exists():
         continue
